@@ -448,12 +448,30 @@ func c16Host(c *Ctx, pool *Pool, i int, n int, realSO bool) error {
 	for k := 0; k < n; k++ {
 		pending = append(pending, SubSeed(seed, "in", r.Intn(n/3+1))) // repeats on purpose: same input, different history
 	}
+	// inputs on which the reference formatter itself panics are outside the
+	// property (and would abort a real C host, which cannot recover a Go panic)
+	refs := map[string]*Resp{}
 	for _, s := range pending {
 		in := FormatInput(s)
 		if bytes.Contains(in, []byte{0}) || len(in) > 400000 {
 			continue
 		}
+		ref, ok := refs[string(in)]
+		if !ok {
+			var err error
+			if ref, err = formatRef(pool, in); err != nil {
+				return err
+			}
+			refs[string(in)] = ref
+		}
+		if ref.TimedOut || ref.Crashed != "" || ref.ParsePanic != "" {
+			c.ev.Count("host_inputs_skipped_reference_panics", 1)
+			continue
+		}
 		spec.Calls = append(spec.Calls, HostCall{Thread: r.Intn(spec.Threads), Input: in})
+	}
+	if len(spec.Calls) == 0 {
+		return nil
 	}
 	res, err := runHost(c, spec, realSO)
 	if err != nil {
@@ -473,13 +491,7 @@ func c16Host(c *Ctx, pool *Pool, i int, n int, realSO bool) error {
 		c.ev.AddSample(map[string]any{"entry": "FormatPacketDslExport host history", "threads": spec.Threads, "first_calls": []any{map[string]any{"thread": spec.Calls[0].Thread, "input": clip(string(spec.Calls[0].Input), 200)}, map[string]any{"thread": spec.Calls[1].Thread, "input": clip(string(spec.Calls[1].Input), 200)}}, "calls": len(spec.Calls)}, 6)
 	}
 	for k, call := range spec.Calls {
-		ref, err := formatRef(pool, call.Input)
-		if err != nil {
-			return err
-		}
-		if ref.TimedOut || ref.Crashed != "" || ref.ParsePanic != "" {
-			continue
-		}
+		ref := refs[string(call.Input)]
 		c.ev.Count("host_calls_checked", 1)
 		if v := checkHostCall(ref, &res[k]); v != nil {
 			c.candidate16Host(i, spec, k, v, realSO)
@@ -598,13 +610,13 @@ func (c *Ctx) candidate16Host(caseIdx int, spec *HostSpec, k int, v *c16Viol, re
 	// fails: the LAST call of the history shows the same violation class
 	fails := func(calls []HostCall) *c16Viol {
 		sp := &HostSpec{Threads: spec.Threads, Calls: calls}
-		res, err := runHost(c, sp, realSO)
-		if err != nil || res == nil {
-			return nil
-		}
 		last := calls[len(calls)-1]
 		ref, err := DoFresh(c.sc.Worker, &Req{Op: "format", DSL: last.Input, Sched: s0()}, 1)
 		if err != nil || ref.TimedOut || ref.Crashed != "" || ref.ParsePanic != "" {
+			return nil
+		}
+		res, err := runHost(c, sp, realSO)
+		if err != nil || res == nil {
 			return nil
 		}
 		nv := checkHostCall(ref, &res[len(res)-1])
@@ -786,7 +798,16 @@ func c16Compile(c *Ctx, pool *Pool, i int, thorough bool) error {
 			// directory names that look like subcommands, and spellings that
 			// filepath.Clean would alter (trailing slash, ./, doubled slash, ".")
 			if !shared && !cc.nested && r.Chance(1, 8) {
-				d = r.Pick([]string{"format", "compile", "help", "completion"})
+				nd := r.Pick([]string{"format", "compile", "help", "completion"})
+				taken := false
+				for _, od := range cc.dirs {
+					if od == nd {
+						taken = true // one directory per target unless the layout is deliberately shared
+					}
+				}
+				if !taken {
+					d = nd
+				}
 			}
 			cc.dirs[t] = d
 			switch r.Intn(10) {
@@ -810,7 +831,13 @@ func c16Compile(c *Ctx, pool *Pool, i int, thorough bool) error {
 		var links []DiskEntry
 		if !shared && r.Chance(1, 5) {
 			t := ts[r.Intn(len(ts))]
-			if cc.dirs[t] != "." {
+			unique := true
+			for u, od := range cc.dirs {
+				if u != t && (od == cc.dirs[t] || strings.HasPrefix(od, cc.dirs[t]+"/") || strings.HasPrefix(cc.dirs[t], od+"/")) {
+					unique = false
+				}
+			}
+			if cc.dirs[t] != "." && unique {
 				if _, respelled := cc.spell[t]; !respelled {
 					link := cc.dirs[t]
 					realDir := "store/" + t + "_real"
